@@ -66,6 +66,15 @@ def comment_failures(r, src):
         if [c for c in before if kind(c) == k] != [c for c in after if kind(c) == k]:
             out.append(("comments-lost-or-reordered", ("reordered-same-kind", k), {"before": before[:30], "after": after[:30]}))
     if out:
+        # comments above an import travel with it when the imports are sorted (accepted: the
+        # driver already treats import order as normalised): every comment whose order changed
+        # must still sit above the same `use <module>` line
+        fmt = r.get("fmt")
+        if fmt is not None:
+            a1, a2 = _import_anchors(src), _import_anchors(fmt)
+            moved = _moved(before, after)
+            if moved and all(c in a1 and a1.get(c) == a2.get(c) for c in moved):
+                return [], {"comments-travel-with-sorted-imports": 1}
         return out, norm
     # only the interleaving of different kinds changed
     b23 = [c for c in before if kind(c) != "c4"]
@@ -75,12 +84,101 @@ def comment_failures(r, src):
         return out, norm
     # accepted when the comments of every gap between two code tokens stay together
     # (`//` lines are printed above the `///` block of the same definition)
-    fmt = r.get("fmt")
-    if fmt is not None and _runs(src) == _runs(fmt):
+    # accepted when every `//` / `///` pair whose order flipped stood in the same gap between two
+    # code tokens (`//` lines are printed above the `///` block of the same definition)
+    run_of = _run_ids(src)
+    pos_b = {c: i for i, c in enumerate(b23)}
+    pos_a = {c: i for i, c in enumerate(a23)}
+    ok = len(pos_b) == len(b23)  # needs unique texts
+    if ok:
+        docs = [c for c in b23 if kind(c) == "c3"]
+        lines = [c for c in b23 if kind(c) == "c2"]
+        for d in docs:
+            for c in lines:
+                if (pos_b[d] < pos_b[c]) != (pos_a[d] < pos_a[c]) and run_of.get(d) != run_of.get(c):
+                    ok = False
+                    break
+            if not ok:
+                break
+    if ok:
         norm["comment-kinds-regrouped-within-gap"] = 1
         return out, norm
     out.append(("comments-lost-or-reordered", ("reordered-across-kinds",), {"before": before[:30], "after": after[:30]}))
     return out, norm
+
+
+def _moved(before, after):
+    """comments that are not part of the longest common subsequence"""
+    import difflib
+
+    sm = difflib.SequenceMatcher(a=before, b=after, autojunk=False)
+    keep = set()
+    for blk in sm.get_matching_blocks():
+        keep.update(before[blk.a: blk.a + blk.size])
+    return [c for c in before if c not in keep]
+
+
+def _import_anchors(text):
+    """{comment text: module path of the `use` line it sits above}"""
+    toks = lex.tokens(text)
+    out = {}
+    pending = []
+    i = 0
+    while i < len(toks):
+        k, t, nl = toks[i]
+        if k in ("c2", "c3", "c4"):
+            pending.append((("//" if k == "c2" else "///" if k == "c3" else "////") and t.rstrip()))
+        else:
+            if k == "kw" and t == "use":
+                j = i + 1
+                path = []
+                while j < len(toks) and (toks[j][0] == "name" or toks[j][1] == "/") and toks[j][2] == 0:
+                    path.append(toks[j][1])
+                    j += 1
+                for c in pending:
+                    out[c] = "".join(path)
+            pending = []
+        i += 1
+    return out
+
+
+def doc_anchor_failures(src, fmt):
+    """every `///` comment must stay in front of the same code token (a doc comment that
+    ends up in front of something else documents something else)"""
+    def anchors(text):
+        toks = lex.tokens(text)
+        res = []
+        for i, (k, t, nl) in enumerate(toks):
+            if k == "c3":
+                j = i + 1
+                while j < len(toks) and toks[j][0] in ("c2", "c3", "c4"):
+                    j += 1
+                res.append((t.rstrip(), toks[j][1] if j < len(toks) else "<end of module>"))
+        return res
+
+    a, b = anchors(src), anchors(fmt)
+    if sorted(a) == sorted(b):
+        return []
+    bd = {}
+    for c, x in b:
+        bd.setdefault(c, []).append(x)
+    moved = [(c, x, bd.get(c, ["<lost>"])[0]) for c, x in a if x not in bd.get(c, [])]
+    if not moved:
+        return []
+    to_end = all(y == "<end of module>" for _, _, y in moved)
+    return [("comments-lost-or-reordered", ("doc-comment-moved", "to-end" if to_end else "to-other-item"), {"moved": [{"doc": c, "was before": x, "now before": y} for c, x, y in moved[:6]], "fmt": fmt})]
+
+
+def _run_ids(text):
+    """{comment text: index of the gap (between two code tokens) it stands in}"""
+    out = {}
+    gap = 0
+    for t in lex.tokens(text):
+        if t[0] in ("c2", "c3"):
+            out[t[1].rstrip()] = gap
+        elif t[0] != "c4":
+            gap += 1
+    return out
 
 
 def _runs(text):
@@ -147,6 +245,8 @@ def judge(r, src):
         fails += f
         for k, v in n.items():
             norm[k] = norm.get(k, 0) + v
+    if "///" in src and r.get("fmt") is not None and not any(k == "comments-lost-or-reordered" and s[0] in ("lost", "duplicated") for k, s, _ in fails):
+        fails += doc_anchor_failures(src, r["fmt"])
     if not r.get("idempotent", True):
         fails.append(("not-idempotent", (), {"fmt": r.get("fmt"), "fmt2": r.get("fmt2")}))
     return fails, norm
